@@ -44,6 +44,10 @@ pub struct Found {
     pub idx: u64,
     pub case: Case,
     pub violation: Violation,
+    /// run indices the reporting worker thread had executed before (and
+    /// including) this one, in order: what the code under test had been
+    /// through in this thread when it failed
+    pub history: Vec<u64>,
 }
 
 #[derive(Default)]
@@ -106,7 +110,7 @@ impl Stats {
                 *self.known_hits.entry(v.oracle).or_insert(0) += 1;
                 return false;
             }
-            self.found.push(Found { idx, case: o.explicit, violation: v });
+            self.found.push(Found { idx, case: o.explicit, violation: v, history: Vec::new() });
             true
         } else {
             false
@@ -190,6 +194,7 @@ pub fn run_batch(cfg: &Cfg, n: u64, scenario: Scenario, keep_index_digests: bool
                     let mut st = Stats::default();
                     st.keep_index_digests = keep_index_digests;
                     st.known_oracles = cfg.known_oracles.clone();
+                    let mut history: Vec<u64> = Vec::new();
                     loop {
                         if stop.load(Ordering::SeqCst) {
                             break;
@@ -200,9 +205,13 @@ pub fn run_batch(cfg: &Cfg, n: u64, scenario: Scenario, keep_index_digests: bool
                         }
                         st.begin_index(i);
                         let before = st.found.len();
+                        history.push(i);
                         scenario(&cfg, i, &mut st);
                         st.end_index();
                         if st.found.len() > before {
+                            for f in st.found[before..].iter_mut() {
+                                f.history = history.clone();
+                            }
                             stop.store(true, Ordering::SeqCst);
                         }
                     }
@@ -354,6 +363,206 @@ pub fn replay(path: &str) -> i32 {
     }
 }
 
+
+// ------------------------------------------------------- history-dependent failures
+
+/// Run the given run indices, in order, in THIS thread of THIS process.
+/// Returns the first violation reported, with the index it was reported at.
+pub fn run_history(cfg: &Cfg, scenario: Scenario, indices: &[u64]) -> Option<(u64, Violation)> {
+    let mut st = Stats::default();
+    st.known_oracles = cfg.known_oracles.clone();
+    for i in indices {
+        st.begin_index(*i);
+        scenario(cfg, *i, &mut st);
+        st.end_index();
+        if let Some(f) = st.found.first() {
+            return Some((f.idx, f.violation.clone()));
+        }
+    }
+    None
+}
+
+fn history_digest(oracle: &str, observed: &str, indices: &[u64]) -> String {
+    let mut d = crate::rng::Digest::new();
+    d.str(oracle);
+    d.str(observed);
+    for i in indices {
+        d.u64(*i);
+    }
+    format!("{:016x}", d.finish())
+}
+
+/// `fstsim history <PROP> ...`: indices on stdin (whitespace separated).
+/// exit 1 + "HISTORY-REPRODUCED" if the LAST index reports `oracle`.
+pub fn history_child(cfg: &Cfg, scenario: Scenario, oracle: &str) -> i32 {
+    let mut s = String::new();
+    use std::io::Read;
+    let _ = std::io::stdin().read_to_string(&mut s);
+    let indices: Vec<u64> = s.split_whitespace().filter_map(|x| x.parse().ok()).collect();
+    match run_history(cfg, scenario, &indices) {
+        Some((idx, v)) if Some(&idx) == indices.last() && v.oracle == oracle => {
+            println!("HISTORY-REPRODUCED {}", v.observed.replace('\n', " "));
+            1
+        }
+        Some((idx, v)) => {
+            println!("HISTORY-OTHER idx={} oracle={}", idx, v.oracle);
+            0
+        }
+        None => 0,
+    }
+}
+
+fn spawn_self(cfg: &Cfg, sub: &[&str], stdin_text: &str) -> (i32, String) {
+    use std::io::{Read, Write};
+    use std::process::{Command, Stdio};
+    let exe = std::env::current_exe().unwrap_or_else(|e| harness_error(format!("current_exe: {}", e)));
+    let mut cmd = Command::new(exe);
+    cmd.args(sub);
+    cmd.args(["--tier", cfg.tier.name(), "--seed", &cfg.seed.to_string(), "--scale", &cfg.scale.to_string(), "--workers", "1"]);
+    let mut child = cmd
+        .stdin(Stdio::piped())
+        .stdout(Stdio::piped())
+        .stderr(Stdio::null())
+        .spawn()
+        .unwrap_or_else(|e| harness_error(format!("spawn: {}", e)));
+    let _ = child.stdin.take().unwrap().write_all(stdin_text.as_bytes());
+    let mut out = String::new();
+    let _ = child.stdout.take().unwrap().read_to_string(&mut out);
+    let st = child.wait().unwrap_or_else(|e| harness_error(format!("wait: {}", e)));
+    (st.code().unwrap_or(-1), out)
+}
+
+/// Does the reported case fail when it is the only thing a fresh process runs?
+fn fails_alone(cfg: &Cfg, f: &Found) -> bool {
+    let dir = format!("{}/replays", cfg.verif_dir);
+    let _ = std::fs::create_dir_all(&dir);
+    let path = format!("{}/.alone-{}-{}.json", dir, cfg.prop, std::process::id());
+    let v = json!({"property": cfg.prop, "oracle": f.violation.oracle, "case": case_to(&f.case), "log_digest": ""});
+    if std::fs::write(&path, serde_json::to_string(&v).unwrap()).is_err() {
+        return true;
+    }
+    let (code, _) = spawn_self(cfg, &["replay", &path], "");
+    let _ = std::fs::remove_file(&path);
+    // the abnormal death of the child counts as failing alone (the in-process
+    // path then reports it the usual way)
+    code != 0
+}
+
+fn history_reproduces(cfg: &Cfg, oracle: &str, indices: &[u64]) -> Option<String> {
+    let text: Vec<String> = indices.iter().map(|i| i.to_string()).collect();
+    let (code, out) = spawn_self(cfg, &["history", &cfg.prop, "--oracle", oracle], &text.join(" "));
+    if code == 1 {
+        out.lines().find_map(|l| l.strip_prefix("HISTORY-REPRODUCED ").map(|s| s.to_string()))
+    } else {
+        None
+    }
+}
+
+fn conclude_history(cfg: &Cfg, f: &Found) -> i32 {
+    let oracle = &f.violation.oracle;
+    let full = &f.history;
+    if history_reproduces(cfg, oracle, full).is_none() {
+        harness_error(format!(
+            "violation at run {} ({}) reproduces neither alone nor after the {} runs its worker thread executed before it",
+            f.idx,
+            oracle,
+            full.len().saturating_sub(1)
+        ));
+    }
+    // smallest reproducing suffix (hidden state is usually set by a recent run)
+    let mut trials = 1u64;
+    let mut cur: Vec<u64> = full.clone();
+    let mut k = 2usize;
+    while k < full.len() {
+        let cand = full[full.len() - k..].to_vec();
+        trials += 1;
+        if history_reproduces(cfg, oracle, &cand).is_some() {
+            cur = cand;
+            break;
+        }
+        k = k * 2;
+    }
+    // drop single runs from the front part while it still reproduces
+    if cur.len() <= 64 {
+        let mut i = 0;
+        while i + 1 < cur.len() {
+            let mut cand = cur.clone();
+            cand.remove(i);
+            trials += 1;
+            if history_reproduces(cfg, oracle, &cand).is_some() {
+                cur = cand;
+            } else {
+                i += 1;
+            }
+        }
+    }
+    let observed = history_reproduces(cfg, oracle, &cur).unwrap_or_else(|| f.violation.observed.clone());
+    let dir = format!("{}/replays", cfg.verif_dir);
+    let _ = std::fs::create_dir_all(&dir);
+    let path = format!("{}/{}-{}-{}.json", dir, cfg.prop, cfg.seed, f.idx);
+    let v = json!({
+        "property": cfg.prop,
+        "oracle": oracle,
+        "engine": "A",
+        "kind": "history",
+        "seed": cfg.seed,
+        "tier": cfg.tier.name(),
+        "scale": cfg.scale,
+        "run": f.idx,
+        "minimised": true,
+        "minimiser_executions": trials,
+        "run_indices_in_order": cur,
+        "log_digest": history_digest(oracle, &observed, &cur),
+        "observed": observed,
+        "note": "the last run index fails only after the earlier ones ran in the same thread of the same process; alone, in a fresh process, the same case holds: the code under test keeps state from one use to the next",
+        "case_that_failed": case_to(&f.case),
+        "original_history_length": full.len(),
+    });
+    if let Err(e) = std::fs::write(&path, serde_json::to_string_pretty(&v).unwrap()) {
+        harness_error(format!("cannot write replay {}: {}", path, e));
+    }
+    println!(
+        "violation at run index {} (seed {}): oracle {} — only after earlier runs in the same thread (history of {} runs minimised to {})",
+        f.idx,
+        cfg.seed,
+        oracle,
+        full.len(),
+        cur.len()
+    );
+    println!("  observed: {}", observed);
+    println!("  replay with: ./check replay {}", path);
+    println!("VIOLATION property={} replay={}", cfg.prop, path);
+    1
+}
+
+/// Replay of a `kind: history` file (the caller supplies the scenario).
+pub fn replay_history(cfg: &Cfg, scenario: Scenario, v: &Value, path: &str) -> i32 {
+    let oracle = v["oracle"].as_str().unwrap_or("").to_string();
+    let indices: Vec<u64> = v["run_indices_in_order"].as_array().map(|a| a.iter().filter_map(|x| x.as_u64()).collect()).unwrap_or_default();
+    match run_history(cfg, scenario, &indices) {
+        Some((idx, vi)) if Some(&idx) == indices.last() && vi.oracle == oracle => {
+            let observed = vi.observed.replace('\n', " ");
+            let d = history_digest(&oracle, &observed, &indices);
+            if d == v["log_digest"].as_str().unwrap_or("") {
+                println!("REPLAY reproduced exactly: oracle={} digest={}", oracle, d);
+            } else {
+                println!("REPLAY reproduced oracle={} but the observation differs from the file: the code under test changed since it was written", oracle);
+            }
+            println!("  observed: {}", observed);
+            println!("VIOLATION property={} replay={}", cfg.prop, path);
+            1
+        }
+        Some((idx, vi)) => {
+            println!("REPLAY DIVERGED: file says oracle={} at the last index, now oracle={} at index {}", oracle, vi.oracle, idx);
+            2
+        }
+        None => {
+            println!("REPLAY property={} file={}: no violation (the history holds on this tree)", cfg.prop, path);
+            0
+        }
+    }
+}
+
 // ----------------------------------------------------------------- evidence
 
 pub struct EvidenceMeta {
@@ -437,7 +646,7 @@ pub fn write_evidence(
 
 /// Handle the outcome of a batch: minimise + replay file + verdict lines.
 /// Returns the process exit code.
-pub fn conclude(cfg: &Cfg, res: &mut BatchResult, meta: &EvidenceMeta, extra: Value) -> i32 {
+pub fn conclude(cfg: &Cfg, res: &mut BatchResult, meta: &EvidenceMeta, extra: Value, scenario: Scenario) -> i32 {
     let known = load_known(&cfg.verif_dir);
     let mut known_hits: BTreeMap<String, u64> = BTreeMap::new();
     for (o, n) in &res.stats.known_hits {
@@ -453,6 +662,16 @@ pub fn conclude(cfg: &Cfg, res: &mut BatchResult, meta: &EvidenceMeta, extra: Va
         None => 0,
         Some(i) => {
             let f = &res.stats.found[i];
+            // does the case fail on its own (in a fresh process)? If it only
+            // fails after what this worker thread ran before it, the code
+            // under test carries hidden state from one use to the next: the
+            // replay is then the (minimised) sequence of run indices.
+            if !fails_alone(cfg, f) {
+                let code = conclude_history(cfg, f);
+                write_evidence(cfg, res, meta, 1, &known_hits, extra);
+                let _ = scenario;
+                return code;
+            }
             let mut m = Minimiser::new(&cfg.prop, &f.violation.oracle, 4000);
             let minimised = m.minimise(&f.case);
             let o = exec(&cfg.prop, &minimised);
